@@ -17,6 +17,14 @@ for fname in sorted(os.listdir(os.path.join(HERE, "rules"))):
         mod = importlib.import_module("rules." + fname[:-3])
         got = getattr(mod, "GUARDED", [])
         specs += list(got(idx) if callable(got) else got)
+preds = []
+for fname in sorted(os.listdir(os.path.join(HERE, "rules"))):
+    if fname.startswith("c") and fname.endswith(".py"):
+        mod = importlib.import_module("rules." + fname[:-3])
+        preds += list(getattr(mod, "PREDICATES", []))
+psnap = guards.predicate_snapshot(idx, sorted(set(preds)))
+json.dump(psnap, open(guards.PRED_SNAPSHOT, "w"), indent=1, sort_keys=True)
+print(len(psnap), "predicates")
 snap = guards.snapshot_of(idx, sorted(set(specs)))
 os.makedirs(os.path.join(HERE, "tables"), exist_ok=True)
 json.dump(snap, open(guards.SNAPSHOT, "w"), indent=1, sort_keys=True)
